@@ -251,6 +251,20 @@ def _idx(sl):
     return t[1:-1] if t.startswith("(") and t.endswith(")") else t
 
 
+class _FakeStream:
+    """stands for the text stream handed to the table reader (which is replaced as well): it can be closed, used as a context manager, nothing else"""
+    _avn_native = True
+
+    def close(self):
+        return None
+
+    def __enter__(self):
+        return self
+
+    def __exit__(self, *a):
+        return False
+
+
 def index_rule(chk, prog):
     load = prog.func(WMM + "::WMM.load_coefficients")
     den = prog.func(WMM + "::WMM.denormalize_coefficients")
@@ -271,12 +285,58 @@ def index_rule(chk, prog):
     for arr, idx, store, conds, s in _subs(load):
         if store and isinstance(s, ast.Assign) and isinstance(s.value, ast.Subscript) and ast.unparse(s.value.value) == rowvar:
             colmap[(arr, idx)] = (_idx(s.value.slice), conds)
-    want = {("self.c", G): "2", ("self.c", H): "3", ("self.cd", G): "4", ("self.cd", H): "5"}
+    # decided by interpretation on a synthetic coefficient table (degree 2, every entry a distinct number): whatever the loader looks like, g / h / g-dot /
+    # h-dot of (n, m) must land at c[m, n] / c[n, m-1] / cd[m, n] / cd[n, m-1], nothing else is written, and h of m == 0 is not stored
+    def loader_cells():
+        rows = []
+        for n_ in (1, 2):
+            for m_ in range(n_ + 1):
+                rows.append([n_, m_, 1000 + 10 * n_ + m_, (2000 + 10 * n_ + m_) if m_ else 0.0, 3000 + 10 * n_ + m_, (4000 + 10 * n_ + m_) if m_ else 0.0])
+        table = np.array([[P.const(P.Fraction(int(v_))) for v_ in r_] for r_ in rows], dtype=object)
+        it = Interp(prog, intercepts={"pkgutil.get_data": lambda it_, a, k: b"2031.5 WMM-TEST 01/02/2031\n", "np.genfromtxt": lambda it_, a, k: table.copy(),
+                                      "numpy.genfromtxt": lambda it_, a, k: table.copy(), "StringIO": lambda it_, a, k: _FakeStream(), "io.StringIO": lambda it_, a, k: _FakeStream()})
+        obj = it.make_obj(WMM + "::WMM")
+        it.run(prog.func(WMM + "::WMM.load_coefficients"), ["WMMTEST/WMM.COF"], self_obj=obj)
+        cc, cd_ = to_obj(obj.attrs["c"]), to_obj(obj.attrs["cd"])
+        want_c, want_cd = np.zeros((3, 3)), np.zeros((3, 3))
+        for n_, m_, g_, h_, gd_, hd_ in rows:
+            want_c[m_, n_], want_cd[m_, n_] = g_, gd_
+            if m_:
+                want_c[n_, m_ - 1], want_cd[n_, m_ - 1] = h_, hd_
+        num = lambda x: float(x.const()) if isinstance(x, P.Rat) else float(x)
+        for nm, got, wnt in (("c", cc, want_c), ("cd", cd_, want_cd)):
+            if got.shape != wnt.shape:
+                return (False, "self.%s has shape %s for a degree-2 table, expected (3, 3)" % (nm, got.shape), None)
+            for i in range(3):
+                for j in range(3):
+                    if abs(num(got[i, j]) - wnt[i, j]) > 1e-9:
+                        return (False, "self.%s[%d, %d] is %g after loading, expected %g (g/g-dot of (n, m) at [m, n], h/h-dot at [n, m-1])" % (nm, i, j, num(got[i, j]), wnt[i, j]), None)
+        return True
+    try:
+        verdict = loader_cells()
+    except Exception as e_:
+        verdict = (None, "%s: %s" % (type(e_).__name__, e_))
+    if verdict is True:
+        for key in (("self.c", G), ("self.c", H), ("self.cd", G), ("self.cd", H)):
+            chk.record("INDEX.loader", "%s::%s[%s]" % (load.ref, key[0], key[1]), "the COF columns land in their cells (interpreted on a synthetic degree-2 table)")
+        colmap = {}
+        want = {}
+    elif isinstance(verdict, tuple) and verdict[0] is False:
+        chk.record("INDEX.loader", load.ref + "::cells", "the COF columns land in their cells", verdict="VIOLATION", detail=verdict[1])
+        chk.finding("INDEX.loader", WMM, "WMM.load_coefficients", "coefficient cells after loading a synthetic table", verdict[1], line=load.node.lineno)
+        colmap = {}
+        want = {}
+    else:
+        want = {("self.c", G): "2", ("self.c", H): "3", ("self.cd", G): "4", ("self.cd", H): "5"}       # interpretation not possible: the syntactic rule decides
+    lt = "n, m = row[:2]" if verdict is True else lt
     for key, col in want.items():
         site = "%s::%s[%s]" % (load.ref, key[0], key[1])
         got = colmap.get(key)
         if got and got[0] == col:
             chk.record("INDEX.loader", site, "COF column %s stored at %s[%s]" % (col, key[0], key[1]))
+        elif not got:
+            chk.error("INDEX.loader: neither the interpretation on a synthetic table (%s) nor the syntactic rule could follow how %s[%s] is filled (cannot decide)"
+                      % ((verdict[1] if isinstance(verdict, tuple) else verdict), key[0], key[1]))
         else:
             chk.record("INDEX.loader", site, "COF column %s stored at %s[%s]" % (col, key[0], key[1]), verdict="VIOLATION")
             chk.finding("INDEX.loader", WMM, "WMM.load_coefficients", "%s[%s] <- row[%s]" % (key[0], key[1], got[0] if got else None),
